@@ -50,6 +50,9 @@ Definition tcp4_specb (s d sp dp : Z) (f : bytes) : bool :=
              | None => false
              end)).
 
+(** the filter types an entry point can ask for (the packets.FilterType constants) *)
+Inductive ftype := FT_None | FT_ICMP | FT_UDP | FT_TCP | FT_SYNACK | FT_Other.
+
 Definition dropall_specb (f : bytes) : bool := false.
 
 Definition prog_of (r : list raw) : list instr :=
